@@ -1,5 +1,6 @@
 """Engine H: exact-bytes and algorithm-parameter rules for the hash functions (C18; H2 shared with C11)."""
 from .frontend import walk, children, strip, strip_parens, qtype, AnalysisBroken
+from .expr import int_value as int_value_
 from .expr import canon, access_path, int_value, root_var
 from .dataflow import ReachingDefs, origins
 
@@ -733,14 +734,53 @@ def rule_c18(prog, rep):
 from .valgraph import VG, Forward, NotStraight
 
 
-def _top_split(f):
-    """(pre statements, loop statement, post statements) at the top level of the function body"""
-    top = children(f.body)
+def _addr_cond(e):
+    """the condition tests the address held by a pointer (pointer cast to an integer type)"""
+    for x in walk(e):
+        if x.get('kind') == 'CStyleCastExpr':
+            t = (qtype(x) or '').replace('const ', '').strip()
+            if t in ('uintptr_t', 'intptr_t', 'size_t', 'unsigned long', 'long', 'uint64_t'):
+                o = strip(children(x)[0])
+                if (qtype(o) or '').rstrip().endswith('*'):
+                    return True
+    return False
+
+
+def _top_split(f, choices=None):
+    """(pre statements, loop statement, post statements) at the top level of the function body.  A top-level `if` on an
+    address-dependent condition (alignment split) whose arms hold the block loop is replaced by the arm the current choice
+    selects (NeedChoice is raised while the choice is open)."""
+    from .valgraph import NeedChoice
+    top = []
+    for st in children(f.body):
+        if st.get('kind') == 'IfStmt' and _addr_cond(st['inner'][0]) and any(
+                y.get('kind') in ('ForStmt', 'WhileStmt') for y in walk(st)):
+            key = canon(st['inner'][0])
+            if choices is None or key not in choices:
+                raise NeedChoice(key)
+            arm = st['inner'][1] if choices[key] else (st['inner'][2] if len(st['inner']) > 2 else None)
+            if arm is not None:
+                top += list(children(arm)) if arm.get('kind') == 'CompoundStmt' else [arm]
+            continue
+        top.append(st)
     loops = [i for i, st in enumerate(top) if st.get('kind') in ('ForStmt', 'WhileStmt')]
     if len(loops) != 1:
         return None
     i = loops[0]
     return top[:i], top[i], top[i + 1:]
+
+
+def _scratch_words(body):
+    """scalars that only receive a block by memcpy(&k, p, sizeof k) inside the loop body: a load, not hash state"""
+    out = set()
+    for y in walk(body):
+        if y.get('kind') == 'CallExpr' and len(children(y)) >= 3:
+            c0 = strip(children(y)[0])
+            if (c0.get('referencedDecl') or {}).get('name') == 'memcpy':
+                d = strip(children(y)[1])
+                if d.get('kind') == 'UnaryOperator' and d.get('opcode') == '&' and strip(children(d)[0]).get('kind') == 'DeclRefExpr':
+                    out.add(canon(children(d)[0]))
+    return out
 
 
 def _pointer_locals(f):
@@ -908,7 +948,7 @@ def rule_murmur_vg(prog, rep, fname, which, rid):
 
 def _murmur_vg_once(prog, rep, fname, which, rid, choices):
     f = prog.need_func(fname)
-    parts = _top_split(f)
+    parts = _top_split(f, choices)
     rep.broken_if(parts is None, '%s: expected exactly one block loop at the top level' % fname)
     if parts is None:
         return
@@ -947,8 +987,30 @@ def _murmur_vg_once(prog, rep, fname, which, rid, choices):
             if l0.get('kind') == 'DeclRefExpr' and (l0.get('referencedDecl') or {}).get('name') in ptrs_local:
                 cursor = (l0.get('referencedDecl') or {}).get('name')
         bound = fw.ev(children(c)[1], dict(env0)) if c.get('kind') == 'BinaryOperator' and c.get('opcode') in ('<', '!=') else None
+        # count-down form: `for (i = nblocks; i > 0; i--, p += ...)` - the counter starts at the block count, block pointers walk
+        down = None
+        if cursor is None and c.get('kind') == 'BinaryOperator' and c.get('opcode') in ('>', '!=') and int_value_(children(c)[1]) == 0:
+            l0 = strip(children(c)[0])
+            nm0 = (l0.get('referencedDecl') or {}).get('name') if l0.get('kind') == 'DeclRefExpr' else None
+            if nm0 and nm0 not in ptrs_local and any(
+                    y.get('kind') == 'UnaryOperator' and y.get('opcode') == '--' and canon(children(y)[0]) == nm0
+                    for y in walk(loop)):
+                down = nm0
         rep.instance(rid)
-        if cursor is not None:
+        if down is not None:
+            envd = dict(env0)
+            if init is not None:
+                fw.stmt(init, envd)
+            trip = envd.get(down)
+            walkers = sorted({(strip(children(y)[0]).get('referencedDecl') or {}).get('name') for y in walk(loop)
+                              if ((y.get('kind') == 'UnaryOperator' and y.get('opcode') == '++') or
+                                  (y.get('kind') == 'CompoundAssignOperator' and y.get('opcode') == '+='))
+                              and strip(children(y)[0]).get('kind') == 'DeclRefExpr'} & ptrs_local)
+            ok = trip == vg.div(n, vg.const(B), 64) and bool(walkers) and all(envd.get(w) == data for w in walkers)
+            shown = '%s blocks counted down, block pointer(s) %s' % (vg.show(trip) if trip is not None else '?', walkers)
+            env0 = envd
+            ctr = down
+        elif cursor is not None:
             start = env0.get(cursor)
             span = vg.add(bound, start, 64, -1) if (bound is not None and start is not None) else None
             ok = start == data and span == vg.mul(vg.div(n, vg.const(B), 64), vg.const(B), 64)
@@ -962,18 +1024,31 @@ def _murmur_vg_once(prog, rep, fname, which, rid, choices):
         if not ok:
             rep.violation(rid, f, loop.get('_line'), 'frame-block-count', '%s: the block loop runs %s, expected %s / %d blocks from the start of '
                           'the data: the hash would not cover exactly the given bytes' % (fname, shown, nname, B))
-        state = sorted(k for k in _assigned_keys(body) if k in env0 and k != ctr and k not in ptrs_local)
+        state = sorted(k for k in _assigned_keys(body) if k in env0 and k != ctr and k not in ptrs_local and k not in _scratch_words(body))
         rep.broken_if(len(state) != (1 if which == 32 else 2), '%s: hash state variables not identified (%s)' % (fname, state))
         env = dict(env0)
         ins = {}
         for v in state:
             ins[v] = env[v] = vg.sym(v + '@in')
         i_ = vg.sym('i')
-        if cursor is not None:
+        if down is not None:
+            for w in walkers:
+                env[w] = vg.add(data, vg.mul(i_, vg.const(B), 64), 64)       # the i-th block
+            env[down] = vg.sym('left')
+        elif cursor is not None:
             env[cursor] = vg.add(data, vg.mul(i_, vg.const(B), 64), 64)       # the i-th block
         elif ctr:
             env[ctr] = i_
         fw.stmt(body, env)
+        if down is not None:
+            if inc is not None:
+                fw.stmt(inc, env) if inc.get('kind') in ('BinaryOperator', 'CompoundAssignOperator', 'UnaryOperator') else fw.ev(inc, env)
+            rep.instance(rid)
+            okc = all(env.get(w) == vg.add(data, vg.mul(vg.add(i_, vg.const(1), 64), vg.const(B), 64), 64) for w in walkers)
+            rep.oblige(rid, okc, {'function': fname, 'check': 'block step'})
+            if not okc:
+                rep.violation(rid, f, loop.get('_line'), 'frame-block-step', '%s: a block pointer does not advance by exactly one block (%d bytes) '
+                              'per iteration' % (fname, B))
         if cursor is not None:
             # the cursor advances by exactly one block per iteration (in the body or in the loop header)
             if inc is not None:
